@@ -209,6 +209,9 @@ def norm_model_token(t):
     """model prints `b=<key>=<value>` (the key is an annotation): the wire shows the value only"""
     if t.startswith("b="):
         return "b=" + t.split("=")[2]
+    if t.startswith("p="):
+        _, k, v = t.split("=")
+        return "p=%s=%s" % (hx(unhx(k).split(b"/", 1)[1]), v)
     return t
 
 
@@ -234,6 +237,7 @@ class Session:
             self.srv.stop()
         self.srv = Server("c13")
         self.ctl = self.srv.client()
+        self.ctl_db = 0
         self.on_server = 0
 
     def close(self):
@@ -255,7 +259,16 @@ class Session:
             if time.monotonic() - t0 > 5:
                 raise InternalError("event loop of the server does not advance")
 
-    def impl_blocked(self, keys):
+    def select(self, db):
+        if self.ctl_db != db:
+            r = self.ctl.cmd("SELECT", str(db), timeout=5)
+            if r[0] != "s":
+                raise InternalError("SELECT %d refused: %r" % (db, r))
+            self.ctl_db = db
+
+    def impl_blocked(self, keys, db=0):
+        """registry of database `db` restricted to `keys` (wire names), and the (global) wake-queue length"""
+        self.select(db)
         r = self.ctl.cmd("VERIF", "BLOCKED", timeout=5)
         items = r[1]
         wq = items[-1][1]
@@ -266,11 +279,19 @@ class Session:
                 reg[k] = [x[1] for x in items[i + 1][1]]
         return reg, wq
 
-    def impl_list(self, k):
+    def impl_list(self, k, db=0):
+        self.select(db)
         r = self.ctl.cmd("LRANGE", k, "0", "-1", timeout=5)
         if r[0] != "a":
             return None
         return [x[1] for x in r[1]]
+
+    def stall(self, ms):
+        """keep the only command thread busy for `ms` milliseconds (the server's own slow test command): no loop
+        iteration, hence no deadline scan, happens meanwhile"""
+        r = self.ctl.cmd("SLEEP", str(ms), timeout=ms / 1000.0 + 5)
+        if r[0] != "s":
+            raise InternalError("SLEEP refused: %r" % (r,))
 
     def ask(self, line):
         a = self.model.ask(line)
@@ -290,7 +311,7 @@ class Wait:
 class HistoryRun:
     """Runs one history against server and model; collects oracle failures, disagreements, reason tags."""
 
-    def __init__(self, sess, nclients, label):
+    def __init__(self, sess, nclients, label, dbs=(0,), oracle_only=False):
         self.S = sess
         self.rep = sess.rep
         sess.hist_no += 1
@@ -298,16 +319,23 @@ class HistoryRun:
         if sess.on_server > 60 or not sess.srv.alive():
             sess.start_server()
         sfx = b":%d" % sess.hist_no
-        self.keys = [b"a" + sfx, b"b" + sfx]
+        self.dbs = list(dbs)                         # the databases of this history; a client is on dbs[cur_db[client]]
+        self.names = [b"a" + sfx, b"b" + sfx, b"c" + sfx]        # the same three key names in every database
+        # the model's keys are database-qualified: `15/a:7` is the key a:7 of database 15
+        self.keys = [self.mk(db, n) for db in self.dbs for n in self.names]
+        self.oracle_only = oracle_only               # search mode: no model, the property's oracles on the server alone
         self.label = label
         self.clients = [sess.srv.client() for _ in range(nclients)]
         self.flat = [Flat(c) for c in self.clients]
         self.ids = []
+        self.cur_db = [0] * nclients
         for c in self.clients:
             r = c.cmd("CLIENT", "ID", timeout=5)
             if r[0] != "i":
                 raise InternalError("CLIENT ID not supported: %r" % (r,))
             self.ids.append(r[1])
+            if self.dbs[0] != 0:
+                c.cmd("SELECT", str(self.dbs[0]), timeout=5)
         sess.ask("reset")
         self.t0 = time.monotonic()
         self.vcount = 0
@@ -325,6 +353,7 @@ class HistoryRun:
         self.old_tags = []
         self.self_serve = None
         self.enc_client = None
+        self.last_wait_db = {}
         self.oracle = []            # (kind, detail)
         self.disagree = []
         self.flagged = set()
@@ -336,8 +365,39 @@ class HistoryRun:
     def now(self):
         return int((time.monotonic() - self.t0) * 1000)
 
+    # ---- keys
+    @staticmethod
+    def mk(db, name):
+        return b"%d/" % db + name
+
+    def key_of(self, ci, ki):
+        """model key and wire name of key number `ki` for client `ci` (on its currently selected database)"""
+        return self.mk(self.dbs[self.cur_db[ci]], self.names[ki]), self.names[ki]
+
+    @staticmethod
+    def name_of(mkey):
+        return mkey.split(b"/", 1)[1]
+
+    def observe(self):
+        """registry, wake-queue length and lists of every database of the history, keyed by model key"""
+        reg, lists, wq = {}, {}, 0
+        for db in self.dbs:
+            r, wq = self.S.impl_blocked(self.names, db)
+            for n, ids in r.items():
+                reg[self.mk(db, n)] = ids
+            for n in self.names:
+                lists[self.mk(db, n)] = self.S.impl_list(n, db)
+        return reg, wq, lists
+
     # ---- model
     def refresh_model(self):
+        if self.oracle_only:
+            # harness view stands in for the model: who has an unanswered blocking pop is blocked
+            self.m = {"raw": "", "reg": {}, "deadlines": self.wait_deadlines(), "wq": [], "lists": {}, "lost": 0,
+                      "stranded": [], "leftover": [], "unreg": [],
+                      "conns": {cid: {"blocked": any(not w.deferred for w in self.waits[ci]), "closed": self.closed[ci], "gone": self.closed[ci],
+                                      "tx": self.in_multi[ci], "deferred": False, "state": "?"} for ci, cid in enumerate(self.ids)}}
+            return self.m
         line = self.S.ask("dump %s %s" % ("|".join(str(i) for i in [0] + self.ids), "|".join(hx(k) for k in self.keys)))
         d = dict(p.split("=", 1) for p in line.split(" "))
         m = {"raw": line, "reg": {}, "deadlines": [], "wq": [] if d["wq"] == "." else d["wq"].split(","), "lists": {}, "conns": {},
@@ -368,6 +428,8 @@ class HistoryRun:
         return m
 
     def model_event(self, line, step):
+        if self.oracle_only:
+            return {}
         a = self.S.ask("ev " + line)
         ok, tags, okf, ftags, outs = a.split(" ")
         if (ok == "1") != (tags == ".") or (okf == "1") != (ftags == "."):
@@ -391,27 +453,29 @@ class HistoryRun:
     def encode(self, cmd):
         """-> (wire args, model word)"""
         k = cmd[0]
+        ci = self.enc_client
         if k == "bpop":
             _, op, kis, t = cmd
-            keys = [self.keys[i] for i in kis]
+            pairs = [self.key_of(ci, i) for i in kis]
             name = "BLPOP" if op == "L" else "BRPOP"
             tsec = "0" if t == 0 else ("%d.%03d" % (t // 1000, t % 1000))
-            return [name] + keys + [tsec], "bpop:%s:%s:%d" % (op, "|".join(hx(x) for x in keys), t)
+            return [name] + [w for _, w in pairs] + [tsec], "bpop:%s:%s:%d" % (op, "|".join(hx(m) for m, _ in pairs), t)
         if k == "push":
             _, op, ki, n = cmd
+            mkey, wname = self.key_of(ci, ki)
             vals = []
             for _ in range(n):
                 self.vcount += 1
                 v = b"v%d" % self.vcount
                 vals.append(v)
-                self.pushed[v] = self.keys[ki]
-            if self.enc_client is not None:
-                self.push_fifo[self.enc_client].append(vals)
+                self.pushed[v] = mkey
+            self.push_fifo[ci].append(vals)
             name = "LPUSH" if op == "L" else "RPUSH"
-            return [name, self.keys[ki]] + vals, "push:%s:%s:%s" % (op, hx(self.keys[ki]), "|".join(hx(v) for v in vals))
+            return [name, wname] + vals, "push:%s:%s:%s" % (op, hx(mkey), "|".join(hx(v) for v in vals))
         if k == "pop":
             _, op, ki = cmd
-            return ["LPOP" if op == "L" else "RPOP", self.keys[ki]], "pop:%s:%s" % (op, hx(self.keys[ki]))
+            mkey, wname = self.key_of(ci, ki)
+            return ["LPOP" if op == "L" else "RPOP", wname], "pop:%s:%s" % (op, hx(mkey))
         if k == "multi":
             return ["MULTI"], "multi"
         if k == "exec":
@@ -433,9 +497,13 @@ class HistoryRun:
                 if self.waits[ci]:
                     w = self.waits[ci].pop(0)
                     self.activate(ci, t_recv)
-                    if k not in w.keys:
+                    mk_ = next((x for x in w.keys if self.name_of(x) == k), None)
+                    src = self.pushed.get(v)
+                    if mk_ is None:
                         self.fail("wrong-key", "client %d waiting on %r was served from %r" % (ci, w.keys, k), step)
-                    self.served_now.append((ci, k, w.seq))
+                    elif src is not None and src not in w.keys:
+                        self.fail("wrong-key", "client %d waiting on %r was served %r, an element of %r (another database or key)" % (ci, w.keys, v, src), step)
+                    self.served_now.append((ci, mk_ if mk_ is not None else k, w.seq))
             elif t == "na":
                 if self.waits[ci]:
                     w = self.waits[ci].pop(0)
@@ -496,6 +564,8 @@ class HistoryRun:
     def settle_and_compare(self, step, expect, t_start, finite_pending):
         S = self.S
         S.wait_loops(3)
+        if self.oracle_only:
+            return self.settle_oracle_only(step)
         # the next iteration's process_wakeups
         n = 0
         while self.refresh_model()["wq"] and n < 4:
@@ -538,8 +608,7 @@ class HistoryRun:
             self.note_tokens(ci, toks, self.now(), step)
         # registry, wake queue, lists — retried for a moment before a difference is believed
         for attempt in range(6):
-            reg, wq = S.impl_blocked(self.keys)
-            lists = {k: S.impl_list(k) for k in self.keys}
+            reg, wq, lists = self.observe()
             same = (wq == len(m["wq"]) and reg == m["reg"] and all(lists[k] == m["lists"][k] for k in self.keys))
             if same:
                 break
@@ -579,6 +648,24 @@ class HistoryRun:
         self.rep.evaluations += 1
         return not dis
 
+    def settle_oracle_only(self, step):
+        """search mode: no expectations — take what the server has written, look at its registry and lists, judge"""
+        got = {}
+        for _ in range(2):
+            for ci, f in enumerate(self.flat):
+                if not self.closed[ci]:
+                    toks = f.drain()
+                    if toks:
+                        got.setdefault(self.ids[ci], []).extend(toks)
+                        self.note_tokens(ci, toks, self.now(), step)
+            self.S.wait_loops(2)
+        reg, wq, lists = self.observe()
+        self.oracles(step, reg, wq, lists)
+        self.trace.append("   -> replies %s | registry %s wq=%d | lists %s" % (
+            got, show_reg(reg), wq, {k.decode(): [v.decode() for v in (l or [])] for k, l in lists.items() if l}))
+        self.rep.evaluations += 1
+        return True
+
     # ---- actions
     def due(self, horizon):
         """model deadlines that pass before now + horizon"""
@@ -595,7 +682,7 @@ class HistoryRun:
         return [(ci, ws[0]) for ci, ws in enumerate(self.waits)
                 if ws and not self.closed[ci] and ws[0].timeout and not ws[0].late and not ws[0].deferred and ws[0].t_send + ws[0].timeout + MARGIN_MS <= t]
 
-    def tick(self, step, forced=False):
+    def tick(self, step, forced=False, at_now=False):
         """wait until the deadlines that are due have passed by MARGIN_MS, then run the deadline scan in the model;
         a forced tick goes to the next deadline, or — when only overdue unanswered waits are left — to the moment
         their lateness bound runs out"""
@@ -604,7 +691,9 @@ class HistoryRun:
         if not ds:
             return True
         now = self.now()
-        if forced:
+        if at_now:
+            target = now                 # right after a stall: everything that expired meanwhile is found by ONE scan
+        elif forced:
             future = [d for d in ds if d + MARGIN_MS > now]
             if future:
                 target = future[0] + MARGIN_MS
@@ -661,11 +750,11 @@ class HistoryRun:
     def do(self, action):
         """execute one action on both sides; False = stop this history (states diverged or action not applicable)"""
         step = len(self.steps)
-        if self.due(GUARD_MS):
+        kind = action[0]
+        if self.due(30 if kind == "stall" else GUARD_MS):
             if not self.tick(step):
                 return False
         self.refresh_model()
-        kind = action[0]
         self.served_now = []
         self.pre = {}
         self.self_serve = None
@@ -674,6 +763,24 @@ class HistoryRun:
                 return None
             self.steps.append(action)
             return self.tick(step, forced=True)
+        if kind == "stall":
+            # the event loop is kept busy until `action[1]` of the pending deadlines have passed: they are all found
+            # expired by the same deadline scan
+            ds = sorted(set(self.m["deadlines"]) | set(self.wait_deadlines()))
+            t = self.now()
+            ds = [d for d in ds if d > t + 20]
+            if not ds:
+                return None
+            self.steps.append(action)
+            end = ds[min(action[1], len(ds)) - 1] + MARGIN_MS
+            while any(end - MARGIN_MS < d <= end + MARGIN_MS for d in ds if d != ds[min(action[1], len(ds)) - 1]):
+                end += MARGIN_MS
+            ms = min(max(end - t, 30), 900)
+            covered = len([d for d in ds if d <= t + ms - MARGIN_MS])
+            self.rep.count("feature.stall.covering-%d-deadlines" % min(covered, 4))
+            self.trace.append("%d ms: event loop stalled for %d ms (%d deadline(s) pass meanwhile)" % (t, ms, covered))
+            self.S.stall(ms)
+            return self.tick(step, at_now=True)
         ci = action[1]
         cid = self.ids[ci]
         st = self.m["conns"][cid]
@@ -691,6 +798,15 @@ class HistoryRun:
                 expect.setdefault(c, []).extend(toks)
             self.rep.nontrivial(("hangup", st["blocked"]))
             return self.settle_and_compare(step, expect, t, bool(self.m["deadlines"]))
+        if kind == "select":
+            if self.closed[ci] or st["blocked"] or st["gone"] or action[2] >= len(self.dbs) or self.in_multi[ci]:
+                return None
+            self.steps.append(action)
+            self.cur_db[ci] = action[2]
+            r = self.clients[ci].cmd("SELECT", str(self.dbs[action[2]]), timeout=5)
+            self.trace.append("%d ms: client %d (conn %d) selects database %d -> %r" % (self.now(), ci, cid, self.dbs[action[2]], r))
+            self.rep.count("feature.select-between-calls")
+            return r[0] == "s"
         if kind == "send":
             if self.closed[ci] or st["blocked"] or st["gone"]:
                 return None          # a blocked client cannot send: the server would not read it
@@ -698,10 +814,14 @@ class HistoryRun:
             waiters_on = set(k for k, v in self.m["reg"].items() if v)
             for f in features(action, self.m):
                 self.rep.count("feature." + f)
+            self.rep.count("feature.db.%d" % self.dbs[self.cur_db[ci]])
             for cmd in action[2]:
-                if cmd[0] == "push" and self.keys[cmd[2]] in waiters_on:
-                    self.rep.count("feature.push-to-key-with-%d-waiters.%s" % (min(len(self.m["reg"][self.keys[cmd[2]]]), 3), "multi-elem" if cmd[3] > 1 else "1elem"))
-                if cmd[0] == "pop" and any(c2[0] == "push" and c2[2] == cmd[2] for c2 in action[2]) and self.keys[cmd[2]] in waiters_on:
+                if cmd[0] == "push" and self.key_of(ci, cmd[2])[0] in waiters_on:
+                    mk_ = self.key_of(ci, cmd[2])[0]
+                    self.rep.count("feature.push-to-key-with-%d-waiters.%s" % (min(len(self.m["reg"][mk_]), 3), "multi-elem" if cmd[3] > 1 else "1elem"))
+                    if cmd[3] > 1 and len(set(self.m["reg"][mk_])) < len(self.m["reg"][mk_]):
+                        self.rep.count("feature.multi-elem-push-to-key-registered-twice-by-one-client")
+                if cmd[0] == "pop" and any(c2[0] == "push" and c2[2] == cmd[2] for c2 in action[2]) and self.key_of(ci, cmd[2])[0] in waiters_on:
                     self.rep.count("feature.race.push-pop-same-batch-with-waiter")
             wire, words = [], []
             t = self.now()
@@ -709,14 +829,12 @@ class HistoryRun:
             if "bpop" in tops and tops.index("bpop") < len(tops) - 1 and "multi" not in tops[:tops.index("bpop")]:
                 self.self_serve = cid
             inm = self.in_multi[ci]
-            blocked_in_batch = False
             self.enc_client = ci
             for cmd in action[2]:
                 args, word = self.encode(cmd)
                 wire.append(Client.encode(args))
                 words.append(word)
-            self.enc_client = None
-            self.trace.append("%d ms: client %d (conn %d) sends %s" % (t, ci, cid, " ; ".join(" ".join(a.decode() if isinstance(a, bytes) else a for a in self.encode_peek(cmd)) for cmd in action[2])))
+            self.trace.append("%d ms: client %d (conn %d, db %d) sends %s" % (t, ci, cid, self.dbs[self.cur_db[ci]], " ; ".join(" ".join(a.decode() if isinstance(a, bytes) else a for a in self.encode_peek(cmd)) for cmd in action[2])))
             expect = self.model_event("conn %d %d %s" % (cid, t, " ".join(words)), step)
             self.clients[ci].send_raw(b"".join(wire))
             # harness view of what this client is now waiting for (top-level blocking pops only)
@@ -728,12 +846,17 @@ class HistoryRun:
                     inm = False
                 elif cmd[0] == "bpop" and not inm:
                     self.seq += 1
-                    w_ = Wait([self.keys[i] for i in cmd[2]], t, cmd[3], self.seq)
+                    w_ = Wait([self.key_of(ci, i)[0] for i in cmd[2]], t, cmd[3], self.seq)
                     if self.S.facts["defer_batch"] and (newwaits or self.waits[ci]):
                         w_.deferred = True      # executed only after the earlier call is answered
                     newwaits.append(w_)
+            self.enc_client = None
             self.in_multi[ci] = inm
             self.waits[ci].extend(newwaits)
+            if newwaits and len(self.dbs) > 1 and self.last_wait_db.get(ci, self.cur_db[ci]) != self.cur_db[ci]:
+                self.rep.count("feature.blocking-call-after-select-to-another-db")
+            if newwaits:
+                self.last_wait_db[ci] = self.cur_db[ci]
             ok = self.settle_and_compare(step, expect, t, bool(self.m["deadlines"]) or any(c[0] == "bpop" and c[3] for c in action[2]))
             self.rep.nontrivial(("send", tuple(c[0] + (str(len(c[2])) if c[0] == "bpop" else str(c[3]) if c[0] == "push" else "") for c in action[2]),
                                  tuple(sorted(set(t for s_, t in self.tags if s_ == step)))))
@@ -743,18 +866,18 @@ class HistoryRun:
     def encode_peek(self, cmd):
         k = cmd[0]
         if k == "bpop":
-            return ["BLPOP" if cmd[1] == "L" else "BRPOP"] + [self.keys[i] for i in cmd[2]] + ["%d ms" % cmd[3]]
+            return ["BLPOP" if cmd[1] == "L" else "BRPOP"] + [self.names[i] for i in cmd[2]] + ["%d ms" % cmd[3]]
         if k == "push":
-            return ["LPUSH" if cmd[1] == "L" else "RPUSH", self.keys[cmd[2]], "<%d values>" % cmd[3]]
+            return ["LPUSH" if cmd[1] == "L" else "RPUSH", self.names[cmd[2]], "<%d values>" % cmd[3]]
         if k == "pop":
-            return ["LPOP" if cmd[1] == "L" else "RPOP", self.keys[cmd[2]]]
+            return ["LPOP" if cmd[1] == "L" else "RPOP", self.names[cmd[2]]]
         return [k.upper()]
 
     def finish(self):
         """final deadline scans (a nil must arrive, and on time), then hang up everything"""
         step = len(self.steps)
         n = 0
-        while (self.refresh_model()["deadlines"] or self.wait_deadlines()) and n < 5 and not self.disagree:
+        while (self.refresh_model()["deadlines"] or self.wait_deadlines()) and n < 6 and not self.disagree:
             self.tick(step, forced=True)
             n += 1
         for c in self.clients:
@@ -776,11 +899,20 @@ def gen_action(r, h, mode, timed):
     m = h.m
     free = [ci for ci in range(len(h.clients)) if not h.closed[ci] and not m["conns"][h.ids[ci]]["blocked"]]
     op = lambda: r.choice(["L", "R"])
-    key = lambda: r.below(2)
-    tmo = lambda: (r.choice([200, 200, 400]) if (timed and r.chance(1, 2)) else 0)
-    keys_multi = lambda: r.choice([[0, 1], [1, 0], [0, 0], [0, 1, 0], [1, 1, 0]])
+    key = lambda: r.choice([0, 0, 1, 1, 2])
+    tmo = lambda: (r.choice([200, 200, 300, 400]) if (timed and r.chance(1, 2)) else 0)
+    # distinct keys, adjacent repeats, NON-adjacent repeats (a b a, a b b a, a b c a, …), three distinct keys
+    keys_multi = lambda: r.choice([[0, 1], [1, 0], [0, 0], [0, 1, 0], [1, 1, 0], [0, 1, 1, 0], [1, 0, 1], [0, 1, 2], [2, 0, 2], [0, 1, 2, 0], [1, 2, 1, 0], [2, 1, 0, 1, 2]])
     allowed_only = mode == "allowed"
     x = r.below(100)
+    if not allowed_only and free:
+        y = r.below(100)
+        pending = sorted(set(m["deadlines"]))
+        if len(pending) >= 2 and y < 25:
+            return ("stall", r.range(2, 3))          # two or more deadlines found expired by ONE scan
+        if len(h.dbs) > 1 and y >= 90:
+            ci_ = r.choice(free)
+            return ("select", ci_, (h.cur_db[ci_] + 1) % len(h.dbs))
     if not free:
         if m["deadlines"]:
             return ("tick",)
@@ -793,7 +925,13 @@ def gen_action(r, h, mode, timed):
         return ("send", ci, [("bpop", op(), keys_multi(), tmo())])
     if x < 58:
         n = 1 if (allowed_only or r.chance(2, 5)) else r.choice([2, 2, 3, 3, 4, 5])
-        return ("send", ci, [("push", op(), key(), n)])
+        ki = key()
+        # half of the time, aim at a key of this client's database that has waiters
+        waited = [i for i in range(3) if m["reg"].get(h.key_of(ci, i)[0])]
+        if waited and not allowed_only and r.chance(1, 2):
+            ki = r.choice(waited)
+            n = r.choice([2, 2, 3, 4])
+        return ("send", ci, [("push", op(), ki, n)])
     if x < 64:
         return ("send", ci, [("pop", op(), key())])
     if x < 80:
@@ -836,6 +974,26 @@ def gen_action(r, h, mode, timed):
     return ("hangup", r.choice(cands))
 
 
+def gen_convoy(r):
+    """>= 3 waiters queued on ONE key with staggered finite timeouts and one that waits for ever, the event loop stalled
+    while two or three of the deadlines pass (one scan finds them all), then pushes: (clients, actions)"""
+    k = r.below(3)
+    other = (k + 1 + r.below(2)) % 3
+    tmos = r.choice([[200, 300, 0, 400], [200, 200, 0], [300, 200, 0, 0], [200, 0, 300, 400], [0, 200, 300], [200, 300, 400, 0]])
+    acts = []
+    for ci, t in enumerate(tmos):
+        ks = r.choice([[k], [k], [k, other], [other, k], [k, other, k]])
+        acts.append(("send", ci, [("bpop", r.choice("LR"), ks, t)]))
+    p = len(tmos)
+    acts.append(("stall", r.range(2, 3)))
+    acts.append(("send", p, [("push", r.choice("LR"), k, r.range(1, 3))]))
+    acts.append(("tick",))
+    acts.append(("send", p, [("push", r.choice("LR"), k, r.range(1, 2)), ("push", r.choice("LR"), other, 1)]))
+    acts.append(("tick",))
+    acts.append(("send", p, [("push", r.choice("LR"), k, 2)]))
+    return p + 1, acts
+
+
 def features(action, model_before):
     """what a sent batch exercises (distribution printed into the evidence)"""
     fs = []
@@ -851,13 +1009,15 @@ def features(action, model_before):
             in_multi = False
         elif c[0] == "bpop":
             ks = c[2]
-            fs.append("bpop.%dkey%s%s%s" % (len(set(ks)), ".dup" if len(set(ks)) < len(ks) else "", ".timeout" if c[3] else "", ".in-exec" if in_multi else ""))
+            dup = ""
+            if len(set(ks)) < len(ks):
+                adjacent_only = all(ks.index(k_) + ks.count(k_) - 1 == len(ks) - 1 - ks[::-1].index(k_) for k_ in set(ks))
+                dup = ".dup-adjacent" if adjacent_only else ".dup-NON-adjacent"
+            fs.append("bpop.%s.%dkey%s%s%s" % ("BLPOP" if c[1] == "L" else "BRPOP", len(set(ks)), dup, ".timeout" if c[3] else "", ".in-exec" if in_multi else ""))
             if set(ks) & pushed:
                 fs.append("race.push-then-bpop-same-batch")
         elif c[0] == "push":
             fs.append("push.%s%s" % ("1elem" if c[3] == 1 else "multi-elem", ".in-exec" if in_multi else ""))
-            if model_before["reg"].get(c[2]) is not None:
-                pass
             pushed.add(c[2])
         elif c[0] == "pop":
             fs.append("pop" + (".in-exec" if in_multi else ""))
@@ -882,8 +1042,8 @@ def guarded(h, body):
         return h
 
 
-def run_random(sess, r, n_actions, nclients, mode, timed, label):
-    h = HistoryRun(sess, nclients, label)
+def run_random(sess, r, n_actions, nclients, mode, timed, label, dbs=(0,)):
+    h = HistoryRun(sess, nclients, label, dbs=dbs)
 
     def body():
         for _ in range(n_actions):
@@ -897,10 +1057,10 @@ def run_random(sess, r, n_actions, nclients, mode, timed, label):
     return guarded(h, body)
 
 
-def run_fixed(sess, actions, nclients, label, lenient=False):
+def run_fixed(sess, actions, nclients, label, lenient=False, dbs=(0,), oracle_only=False):
     """a given action list; None when an action is not applicable (its client is blocked or gone; nothing to wait for) —
     `lenient` skips such an action instead"""
-    h = HistoryRun(sess, nclients, label)
+    h = HistoryRun(sess, nclients, label, dbs=dbs, oracle_only=oracle_only)
 
     def body():
         for a in actions:
@@ -955,6 +1115,7 @@ def registry_phase(rep, r, facts, n_seq):
     impl = impl_driver("blk")
     model = lean_driver("blk")
     dis = []
+    oracle_fail = []
     try:
         model.ask(cfg_line(facts))
         keys = [b"a", b"b", b"c"]
@@ -966,6 +1127,7 @@ def registry_phase(rep, r, facts, n_seq):
                 return "reg=" + ";".join(sorted(parts)) + " " + wq
             return line
         for i in range(n_seq):
+            spec = {}        # the registry as the property prescribes it: key -> FIFO of [conn, deadline class]
             ops = ["rnew"]
             burst = (i % 5 == 0)          # more than 32 requests queued: the drain bound of process_wakeups
             n = r.range(20, 60)
@@ -1002,6 +1164,37 @@ def registry_phase(rep, r, facts, n_seq):
                     raise InternalError("drv_blk failed on %r" % op)
                 rep.evaluations += 1
                 rep.count("registry." + op.split(" ")[0])
+                # the oracle, independent of the Lean model: who may be reported expired, what the queues must hold
+                w = op.split(" ")
+                if w[0] == "rnew":
+                    spec = {}
+                elif w[0] == "rreg":
+                    for kk in w[3].split("|"):
+                        spec.setdefault(kk, []).append([int(w[1]), w[4]])
+                elif w[0] == "rnotify":
+                    if spec.get(w[1]):
+                        spec[w[1]].pop(0)
+                elif w[0] == "runreg":
+                    for kk in spec:
+                        spec[kk] = [e for e in spec[kk] if e[0] != int(w[1])]
+                elif w[0] == "rexpire":
+                    want = sorted(set(e[0] for q_ in spec.values() for e in q_ if e[1] == "past"))
+                    if len([q_ for q_ in spec.values() if len([e for e in q_ if e[1] == "past"]) >= 2]):
+                        rep.count("registry.rexpire.two-or-more-expired-in-one-queue")
+                    got_ = [] if a in (".", None) else [int(x) for x in a.split(",")] if a != "panic" else None
+                    for kk in spec:
+                        spec[kk] = [e for e in spec[kk] if e[1] != "past"]
+                    if got_ != want:
+                        oracle_fail.append({"ops": ops[:k + 1], "impl": a, "want": ",".join(map(str, want)) or ".",
+                                            "why": "process_timeouts reported %s expired; the waiters whose deadline has passed are %s (a waiter that has not expired "
+                                                   "must not be answered nil, one that has must be)" % (a, want)})
+                        break
+                elif w[0] == "rdump" and a and a.startswith("reg="):
+                    want = ";".join(sorted("%s:%s" % (kk, "+".join(str(e[0]) for e in q_)) for kk, q_ in spec.items() if q_)) or "."
+                    if canon(a).split(" ")[0] != "reg=" + want:
+                        oracle_fail.append({"ops": ops[:k + 1], "impl": a, "want": "reg=" + want,
+                                            "why": "the registry of the BlockingManager is not the FIFO of the registered, not yet notified / expired / unregistered waiters"})
+                        break
                 if op == "rwake" and a and a != ".":
                     rep.nontrivial(("rwake", min(a.count(",") + 1, 33)))
                 if canon(a) != canon(b):
@@ -1011,7 +1204,7 @@ def registry_phase(rep, r, facts, n_seq):
     finally:
         impl.close()
         model.close()
-    return dis
+    return dis, oracle_fail
 
 
 def probes(sess):
@@ -1125,8 +1318,30 @@ def explain(h, findings, upto=None):
 
 
 def replay_obj(h, kind, det):
-    return {"replay": {"clients": len(h.clients), "actions": h.steps, "label": h.label}, "family": "blk", "oracle": kind, "why": det["why"], "at_step": det["step"],
+    return {"replay": {"clients": len(h.clients), "actions": h.steps, "label": h.label, "dbs": h.dbs, "oracle_only": h.oracle_only},
+            "family": "blk", "oracle": kind, "why": det["why"], "at_step": det["step"],
             "trace": h.trace, "model_tags": h.tags, "disagreements": h.disagree[:3]}
+
+
+def search(sess, h):
+    """The correspondence broke on `h` and no oracle has failed yet: go on looking for a failing input on the server alone
+    (DESIGN 2.5).  The history is replayed without the model and extended by a probing suffix — a spare client pushes two
+    elements to every key of every database, all deadlines are let pass, one more element goes to every key, the last
+    deadlines pass — and the property's oracles (conservation, stranded, registry = waiting set, no nil before the
+    timeout / for ever-waiters, no nil later than the bound) are evaluated on the server's lists and registry after every
+    action.  -> a history run with oracle failures, or None"""
+    n = len(h.clients)
+    p = n                                   # the spare client never blocks
+    suffix = []
+    for rnd, cnt in ((0, 2), (1, 1)):
+        for dbi in range(len(h.dbs)):
+            if len(h.dbs) > 1:
+                suffix.append(("select", p, dbi))
+            for ki in range(3):
+                suffix.append(("send", p, [("push", "RL"[rnd], ki, cnt)]))
+        suffix += [("tick",)] * 3
+    g = run_fixed(sess, list(h.steps) + suffix, n + 1, "search", lenient=True, dbs=h.dbs, oracle_only=True)
+    return g if g is not None and g.oracle else None
 
 
 class Verdict:
@@ -1170,7 +1385,7 @@ def shrink(sess, h, kind, findings):
     """drop actions while an unexplained failure of the same kind remains"""
     def fails(cand):
         try:
-            g = run_fixed(sess, cand, len(h.clients), "shrink")
+            g = run_fixed(sess, cand, len(h.clients), "shrink", lenient=h.oracle_only, dbs=h.dbs, oracle_only=h.oracle_only)
         except InternalError:
             return False
         if g is None:
@@ -1187,8 +1402,11 @@ def shrink(sess, h, kind, findings):
 
 def main(tier, seed):
     rep = Report(PID, tier, seed)
-    rep.rule = ("histories of 3-8 actions (a batch written in one send: BLPOP/BRPOP on 1-2 keys with timeout 0/200/400 ms, LPUSH/RPUSH of 1-3 elements, LPOP/RPOP, "
-                "pipelined push+pop, MULTI..EXEC; a wait for the next deadline; a hang-up) of 2-3 clients over 2 keys against the real server over TCP, sequenced by "
+    rep.rule = ("histories of 3-8 actions (a batch written in one send: BLPOP/BRPOP on 1-5 key arguments over 3 key names — distinct, adjacent and NON-adjacent repeats — with "
+                "timeout 0/200/300/400 ms, LPUSH/RPUSH of 1-5 elements (half of them aimed at a key with waiters), LPOP/RPOP, pipelined push+pop, MULTI..EXEC; a wait for the next "
+                "deadline; a stall of the event loop (the server's SLEEP test command from the control connection) while two or more deadlines pass, so that ONE deadline scan finds "
+                "several waiters expired; a hang-up; SELECT between calls) of 2-4 clients, in database 0/1/7/14/15 or in two databases at once (same key names in both); every tenth "
+                "history is a convoy: 3-4 waiters queued on one key with staggered finite timeouts and one for-ever waiter, a stall, pushes. Against the real server over TCP, sequenced by "
                 ">= 3 event-loop iterations (VERIF LOOP); after every action: reply streams, VERIF BLOCKED registry dump, wake-queue length and LRANGE of both keys "
                 "compared with the Lean event machine (code variant), and the full statements (multiset equation, stranded, registry = waiting set, FIFO, nil not "
                 "before the timeout and at most 300 ms late) evaluated on the implementation's observables alone. Half of the random histories are drawn from the "
@@ -1197,7 +1415,10 @@ def main(tier, seed):
         "the atomic steps of the model are the phases of Server::run (single command thread); two clients writing in the same loop iteration are serialised by "
         "the harness, so the cross-connection form of the push/pop race is covered by the theorems (pop-while-wake) but replayed only in its pipelined form",
         "time: deadlines are computed from the harness's monotonic clock at send time; the server's clock reads a little later; no action starts within 100 ms of a deadline",
-        "one database (0); list keys only (wrong-type pushes are C03)",
+        "the model is one keyspace whose keys are database-qualified (15/a is key a of database 15): SELECT is harness bookkeeping, the registry and lists of every database "
+        "of a history are dumped (VERIF BLOCKED / LRANGE after SELECT on the control connection); list keys only (wrong-type pushes are C03)",
+        "when the correspondence breaks and no oracle has failed, the shortest disagreeing histories are re-run WITHOUT the model and extended by a probing suffix (pushes to every key "
+        "of every database, all deadlines, pushes again), judged by the oracles on the server's own lists and registry: `no-failing-input-found` only if that search finds nothing",
         "liveness ('served promptly', 'nil arrives') is observed over TCP with bounds, proved only as the safety statements no_stranded / never_early_nil",
         "the order of nil replies to different connections in one deadline scan (hash-map order) is not compared",
     ]
@@ -1223,8 +1444,9 @@ def main(tier, seed):
     expected_open = [f for f in findings if not (MATCH_TO_SWITCH.get(f.get("match")) and facts.get(MATCH_TO_SWITCH[f["match"]]))]
     rep.extra["source_switches"] = facts
     r = Rng(seed)
-    reg_dis = [] if os.environ.get("C13_DEV_REPO") else registry_phase(rep, r.fork("registry"), facts, 150 if tier == "quick" else 3000)
+    reg_dis, reg_fail = ([], []) if os.environ.get("C13_DEV_REPO") else registry_phase(rep, r.fork("registry"), facts, 150 if tier == "quick" else 3000)
     rep.extra["registry_disagreements"] = len(reg_dis)
+    rep.extra["registry_oracle_failures"] = len(reg_fail)
     sess = Session(rep, facts)
     V = Verdict(rep, expected_open)         # a finding whose repair is in the source excuses nothing any more
     t_start = time.time()
@@ -1264,9 +1486,19 @@ def main(tier, seed):
             else:
                 mode = "allowed" if i % 2 == 0 else "free"
             timed = (i % 4 == 1) or (i % 8 == 2)
-            h = run_random(sess, hr, hr.range(3, 8), hr.range(2, 3), mode, timed, mode + "#%d" % i)
+            # the database is a dimension: boundaries 0, 1, 14, 15 (and a middle one); a third of the histories use two
+            # databases, with clients that SELECT between their (blocking) calls
+            dbs = [hr.choice([0, 0, 1, 7, 14, 15, 15])]
+            if i % 3 == 1:
+                dbs.append(hr.choice([d for d in (0, 1, 2, 14, 15) if d != dbs[0]]))
+            if i % 10 == 9 and mode != "allowed":
+                ncl, acts = gen_convoy(hr)
+                h = run_fixed(sess, acts, ncl, "convoy#%d" % i, lenient=True, dbs=dbs)
+            else:
+                h = run_random(sess, hr, hr.range(3, 8), hr.range(2, 4), mode, timed, mode + "#%d" % i, dbs=dbs)
             if h.overrun and (h.oracle or h.disagree):
-                h = run_fixed(sess, h.steps, len(h.clients), h.label + "-rerun") or h
+                h = run_fixed(sess, h.steps, len(h.clients), h.label + "-rerun", lenient=True, dbs=dbs) or h
+            rep.count("history.databases.%s" % "+".join(str(d) for d in dbs))
             V.absorb(h, mode != "free")
             if i < 3:
                 rep.sample({"history": h.label, "trace": h.trace[:14]})
@@ -1288,6 +1520,21 @@ def main(tier, seed):
             rep.extra["exhaustive_small_scope"] = ("all %d applicable histories (2 waiting clients, 1 pusher, 2 keys) of <= 4 actions over the 7-action alphabet and of 5 actions over its "
                                                    "first 5 actions (%d sequences skipped: an action of a blocked or departed client); model validation%s"
                                                    % (cnt, skipped, "" if complete else "; STOPPED by the time budget"))
+        # 4. the correspondence broke somewhere and no oracle has failed: search the implementation with the oracles alone
+        if V.disagree and not V.new:
+            tried = 0
+            for h in sorted(V.disagree, key=lambda x: len(x.steps)):
+                if tried >= 12 or time.time() - t_start > budget + 240:
+                    break
+                if h.tags:
+                    continue            # the history left AllowedFixed: a failure there could not be attributed
+                tried += 1
+                g = search(sess, h)
+                rep.count("search.after-disagreement." + ("failing-input-found" if g else "nothing-found"))
+                if g:
+                    for kind, det in g.oracle:
+                        V.new.append((g, kind, det))
+                    break
         # ---- verdict (DESIGN 2.5)
         for fid, (f, h, kind, det) in V.known.items():
             rep.known(fid, f["what"])
@@ -1300,6 +1547,9 @@ def main(tier, seed):
             if f["id"] not in V.known:
                 rep.violation("known finding %s no longer reproduces: model / findings file is stale" % f["id"],
                               {"finding": f, "obligation": f.get("lean_witness"), "source_switches": facts}, no_input=True)
+        if reg_fail and not V.new:
+            det = min(reg_fail, key=lambda d: len(d["ops"]))
+            rep.violation("C13 (BlockingManager in-process): %s" % det["why"], {"replay": det, "family": "blk-registry", "more": reg_fail[1:4]})
         if V.new:
             V.new.sort(key=lambda x: len(x[0].steps))
             h, kind, det = V.new[0]
@@ -1339,7 +1589,8 @@ def replay(path):
     build_server()
     sess = Session(rep, {k: (v if v is not None else False) for k, v in source_facts().items()})
     try:
-        h = run_fixed(sess, acts, rp.get("clients", 3), "replay")
+        h = run_fixed(sess, acts, rp.get("clients", 3), "replay", lenient=bool(rp.get("oracle_only")), dbs=tuple(rp.get("dbs") or (0,)),
+                      oracle_only=bool(rp.get("oracle_only")))
     finally:
         sess.close()
     if h is None:
